@@ -205,8 +205,14 @@ func (m *ModSets) addrEffect(a ssa.Value, ms *modSet, d *effect) {
 			// escaping local cell (captured variable): not part of the modelled heap components
 		}
 	case *ssa.FieldAddr:
+		if isLocalObject(x.X) {
+			return // field of an object allocated in this very function: not an effect visible to callers
+		}
 		vc.msField(ms, x.X.Type(), x.Field)
 	case *ssa.IndexAddr:
+		if isLocalObject(x.X) {
+			return
+		}
 		var et types.Type
 		switch u := x.X.Type().Underlying().(type) {
 		case *types.Slice:
@@ -257,6 +263,9 @@ func (m *ModSets) callEffect(f *ssa.Function, c *ssa.CallCommon, ms *modSet, d *
 		return
 	}
 	for _, callee := range m.resolve(c) {
+		if vc.isDropped(callee) {
+			continue // log / metrics / ...: no effect on modelled state (DESIGN 3.3 item 1)
+		}
 		m.calls[f] = append(m.calls[f], callee)
 	}
 }
@@ -357,6 +366,9 @@ func (m *ModSets) effectOfCall(c *ssa.CallCommon, caller *ssa.Function) *effect 
 	}
 	e := newEffect()
 	for _, callee := range m.resolve(c) {
+		if m.namer.isDropped(callee) {
+			continue
+		}
 		ce := m.eff[callee]
 		if ce == nil {
 			// synthetic wrapper or function without body in the module: look through wrappers
@@ -399,4 +411,59 @@ func (m *ModSets) writers(comp string) []string {
 	}
 	sort.Strings(out)
 	return out
+}
+
+// isLocalObject: the address is (a field/element path into) an object allocated by this function itself.
+func isLocalObject(v ssa.Value) bool {
+	for {
+		switch x := v.(type) {
+		case *ssa.Alloc:
+			return true
+		case *ssa.FieldAddr:
+			v = x.X
+		case *ssa.IndexAddr:
+			v = x.X
+		default:
+			return false
+		}
+	}
+}
+
+// reachPath searches the call graph for a path from any root to target; missing names a key that does not resolve.
+func (m *ModSets) reachPath(roots []string, target string) (path []string, missing string) {
+	tgt := m.w.lookupFunc(target)
+	if tgt == nil {
+		return nil, target
+	}
+	prev := map[*ssa.Function]*ssa.Function{}
+	var queue []*ssa.Function
+	for _, r := range roots {
+		f := m.w.lookupFunc(r)
+		if f == nil {
+			return nil, r
+		}
+		if _, ok := prev[f]; !ok {
+			prev[f] = nil
+			queue = append(queue, f)
+		}
+	}
+	for len(queue) > 0 {
+		f := queue[0]
+		queue = queue[1:]
+		if f == tgt {
+			for x := f; x != nil; x = prev[x] {
+				path = append([]string{funcKey(x)}, path...)
+			}
+			return path, ""
+		}
+		next := append([]*ssa.Function{}, m.calls[f]...)
+		next = append(next, f.AnonFuncs...) // closures created here may run on behalf of the creator
+		for _, c := range next {
+			if _, ok := prev[c]; !ok {
+				prev[c] = f
+				queue = append(queue, c)
+			}
+		}
+	}
+	return nil, ""
 }
